@@ -86,11 +86,16 @@ def toRatProblem (P : Problem Float) : Problem Rat :=
 def main : IO Unit := do
   let lines ← readStdinLines
   let out ← IO.getStdout
+  let mut nrec : Nat := 0
   for ln in lines do
     match tokens ln with
     | "I" :: fn :: args =>
       out.putStrLn ln.trimAscii.toString
       let fs := args.map hexToFloat
+      if fn == "summary" then
+        out.putStrLn s!"O summary {nrec}"
+        continue
+      nrec := nrec + 1
       if fn == "pgs" || fn == "pgsbil" then
         let (q, _) := rdProblem.run fs
         let P := q.P
